@@ -109,6 +109,8 @@ func (c *client) Encoder() *cbor.Encoder {
 }
 
 type executionEntry struct {
+	// stepID is the step the run was started for: a result names its step.
+	stepID    string
 	result    *ExecutionResult
 	condition sync.Cond
 }
@@ -526,6 +528,17 @@ func (c *client) handleWorkDoneMessage(runtimeMessage DecodedRuntimeMessage) boo
 			fmt.Errorf("failed to decode work done message for run ID '%s' (%w)", runtimeMessage.RunID, err))
 		return true
 	}
+	c.mutex.Lock()
+	entry, pending := c.runningStepResultEntries[runtimeMessage.RunID]
+	otherStep := pending && doneMessage.StepID != "" && doneMessage.StepID != entry.stepID
+	c.mutex.Unlock()
+	if otherStep {
+		// The run ID has been damaged into that of another run that is waiting: the message says which step it is the
+		// result of, and it is not the step of that run.
+		c.streamBroken(fmt.Errorf("received a result of step '%s' for run ID '%s', which runs another step",
+			doneMessage.StepID, runtimeMessage.RunID))
+		return true
+	}
 	result := c.processWorkDone(runtimeMessage.RunID, doneMessage)
 	c.mutex.Lock()
 	delivered := c.sendExecutionResult(runtimeMessage.RunID, result)
@@ -684,6 +697,11 @@ func (c *client) getResultV1(
 		c.logger.Errorf(err.Error())
 		return NewErrorExecutionResult(c.streamFailed(err))
 	}
+	if doneMessage.StepID != "" && doneMessage.StepID != stepData.ID {
+		// Legacy replies are matched by their position alone: a reply that names another step is not this run's.
+		return NewErrorExecutionResult(c.streamFailed(fmt.Errorf(
+			"received a result of step '%s' where the result of step '%s' was due", doneMessage.StepID, stepData.ID)))
+	}
 	return c.processWorkDone(stepData.RunID, doneMessage)
 }
 
@@ -715,6 +733,7 @@ func (c *client) prepareResultChannels(
 	}
 	// Set up the signal and step results channels
 	resultEntry := executionEntry{
+		stepID:    stepData.ID,
 		result:    nil,
 		condition: sync.Cond{L: &c.mutex},
 	}
